@@ -199,6 +199,10 @@ class Run:
             print(f"VIOLATION property={self.pid} replay={path}")
         for fx in self._facts.values():
             self.fn_analysed |= fx.accessed
+        if os.environ.get("VERIF_DUMP_FNS"):
+            # tooling aid (tools/rule_coverage.py): which functions did the rules of this property read
+            with open(os.path.join(os.environ["VERIF_DUMP_FNS"], f"{self.pid}.fns"), "w") as fh:
+                fh.write("\n".join(sorted(self.fn_analysed)))
         n = len(self.obls)
         ok = sum(1 for o in self.obls if o["ok"])
         rules = sorted(set(o["rule"] for o in self.obls))
